@@ -88,6 +88,54 @@ def check_r1(chk, cfg, mods, table):
     chk.expect("R1", "accesses to _Atomic fields [%s]" % cfg, n, 20)
 
 
+def acquire_load_saw_bit(m, fn, rmw_inst):
+    from ..paths import strip_casts as sc
+    try:
+        ps = [p for p in paths.enumerate_paths(fn, m, loop_bound=1) if not paths.is_assert_fail_path(p)]
+    except AnalysisError:
+        return False
+    hit = 0
+    for p in ps:
+        ks = [k for k, e in enumerate(p.events) if e.kind == "rmw" and e.inst is rmw_inst]
+        if not ks:
+            continue
+        hit += 1
+        e = p.events[ks[0]]
+        operand = sc(e.val)
+        mask = None
+        if operand[0] == "b" and operand[1] == "xor" and operand[4][0] == "c" and operand[4][2] == (1 << operand[2]) - 1:
+            mask = sc(operand[3])
+        if mask is None:
+            return False
+        good = False
+        for ld in p.events[:ks[0]]:
+            if ld.kind == "load" and ld.ptr == e.ptr and ld.inst.is_atomic() and ld.inst.ordering in ACQ:
+                for c, taken, inst in p.conds:
+                    if paths.contains(c, lambda x: x == ld.val) and paths.contains(c, lambda x: sc(x) == mask):
+                        # the path continues to the AND only with (value & mask) != 0
+                        try:
+                            one = paths.cond_holds((c, taken, inst), LazyOne({ld.val: (1 << 32) - 1}, mask))
+                            zero = paths.cond_holds((c, taken, inst), LazyOne({ld.val: 0}, mask))
+                        except paths.NoValue:
+                            continue
+                        if one and not zero:
+                            good = True
+        if not good:
+            return False
+    return hit > 0
+
+
+class LazyOne(dict):
+    """environment in which the (unknown) one-bit mask evaluates to bit 0: enough to tell 'bit set' from 'bit clear' when
+    the flag word is all ones or all zeros"""
+
+    def __init__(self, base, mask):
+        dict.__init__(self, base)
+        self[mask] = 1
+        for x in paths.subexprs(mask):
+            pass
+
+
 def check_r2_mq(chk, cfg, mods):
     n = 0
     for m, fn, acc in mq.mq_functions(mods):
@@ -116,12 +164,20 @@ def check_r2_mq(chk, cfg, mods):
             n += 1
             inst = "%s[%s] %s %s" % (fn.name, cfg, rm or a.kind, f)
             ok = a.ordering in need[1]
+            why_ok = ""
+            if not ok and f == "full_flags" and rm == "and":
+                # a weaker AND is enough when, on every path to it, the receiver has already observed this very bit set through
+                # an atomic load of the flag word that is acquire or stronger: that load reads from the sender's release OR (or
+                # from a later RMW of its release sequence) and so synchronises with it; only the receiver clears bits, so the
+                # bit is still set when the AND runs
+                ok = acquire_load_saw_bit(m, fn, a.inst)
+                why_ok = " (the bit was already observed set by an earlier acquire load of the flag word on every path)"
             if not ok and has_fence:
                 chk.unknown("R2.mq-order", inst, "ordering %s with a separate thread fence: fence idiom not modelled"
                             % a.ordering, a.inst.loc)
                 continue
             chk.ob("R2.mq-order", inst, ok,
-                   "ordering %s; needs >= %s: %s" % (a.ordering, need[0], need[2]), a.inst.loc, fn.name)
+                   "ordering %s; needs >= %s: %s%s" % (a.ordering, need[0], need[2], why_ok if ok else ""), a.inst.loc, fn.name)
     chk.expect("R2", "message-queue hand-off sites [%s]" % cfg, n, 4)
 
 
